@@ -17,7 +17,9 @@ TRUSTED_BASE = [
     "final Run status are compared with the model's by vm_compute)",
     "immutable.Map (the VClock container) is abstracted to the dense vector of its entries; TLA+ values are integers and integer-keyed functions",
     "environment behaviour is a function of the modelled state because the harness is the only driver: a busy lock stays busy and an empty queue stays empty for the whole timeout; "
-    "loopback TCP and gob deliver what was sent; the hand-over of a committed mailbox record to the receive queue is awaited (verif hook reading len(msgChannel))",
+    "loopback TCP and gob deliver what was sent; the hand-over of a committed mailbox record to the receive queue is awaited (verif hook /repo 402c2190 reading len(msgChannel))",
+    "timer/network choices of the implementation (a timeout firing although the lock/message is available, a failing dial or PreCommit) are observed per step and handed to the model as the event's flag",
+    "the ghost fields of the model (attempt numbers, writer tags, read sources, performed-op history) have no counterpart in Go; the theorems about sources speak about the model's tags",
 ]
 ASSUMPTIONS = [
     "tracing and vector clocks enabled (PGO_TRACE_DIR set in the environment at process start); a Recorder that consumes the event inside RecordEvent (as localFileRecorder does)",
@@ -680,14 +682,14 @@ def _run(ctx, cases, scratch):
             body = ("From PGV Require Import C18.Model.\n"
                     "Definition cases : list obs_case :=\n [" + ";\n ".join(coq_case(c, c["_res"], c["_info"]) for c in part) + "].\n"
                     "Definition M := Eval vm_compute in mismatches_from 0 cases.\nPrint M.\n")
-            rc, out, err = vlib.coq_eval("C18_cases_%d" % s, body)
+            rc, out, err = vlib.coq_eval("C18_cases_%d_%d" % (os.getpid(), s), body)
             mm = vlib.parse_nat_list(out, "M") if rc == 0 else None
             if mm is None:
                 ctx.breaks.append({"what": "correspondence evaluation C18_cases did not compile", "detail": (out + err)[-2000:]})
                 break
             for k in mm[:5]:
                 c = part[k]
-                rc2, out2, _ = vlib.coq_eval("C18_one", "From PGV Require Import C18.Model.\n"
+                rc2, out2, _ = vlib.coq_eval("C18_one_%d" % os.getpid(), "From PGV Require Import C18.Model.\n"
                                              "(* per archetype: (first differing event: index, model's, implementation's), model status, observed status *)\n"
                                              "Eval vm_compute in diagnose %s.\n" % coq_case(c, c["_res"], c["_info"]))
                 ctx.breaks.append({"what": "correspondence C18/Model.v vs the runtime differs on a case", "case": strip(c),
@@ -706,7 +708,19 @@ def _run(ctx, cases, scratch):
 
 MANIFEST = {
     "category": "proof",
-    "technique": "Coq proof (invariants over every program, resource mix and interleaving of a multi-archetype transition system) + refutation witness for TCP mailboxes + differential correspondence with real MPCalContexts",
-    "text": "see notes/C18.md",
-    "level_note": "see notes/C18.md",
+    "technique": ("Coq proof (invariants over every program, resource mix and interleaving of a multi-archetype transition system; "
+                  "refutation witness for TCP mailboxes) + differential correspondence with real MPCalContexts driven op by op"),
+    "text": ("Theorems in coq/Properties/C18.v, closed under the global context, over every configuration (any number of archetype instances, any scripted "
+             "program of labels/retries/forced aborts over locals, LocalShared variables, Go-channel resources and TCP mailboxes, malformed ops included) and every "
+             "schedule (any interleaving of single ops, any outcome of the implementation's timer/network choices): logged_exactly_once_in_order (attempt numbers 1,2,3,... "
+             "without gap, abort flags as the Run loop ended the attempts), elements_faithful + read/write_element_faithful (elements = the successful Read/Write calls with "
+             "indices and values, hint = value overwritten, failed ops record nothing), replay_reproduces_local_reads, own_component, reader_dominates_writer (+_relay) for local "
+             "variables, shared variables and channels (after the repair of LocalArchetypeResource.Commit, /repo c36dcc47), reader_covers_writer_component for every kind. "
+             "The full statement is refuted for TCP mailboxes (reader_dominates_writer_refuted, vm_compute witness; known finding 'mailbox-clock-at-write-time'). "
+             "The model is run against the real runtime on every check (events incl. clocks, elements, hints, Run status compared), an implementation-side oracle checks the "
+             "property directly on the logged events and on the JSON logs written under PGO_TRACE_DIR."),
+    "level_note": ("Trusted: Coq kernel; the hand-written model (tie = differential testing: 372 quick / 4200 thorough cases, families locals/shared/relay/mailbox + corpus); "
+                   "immutable.Map abstracted to a dense vector; values are integers / integer-keyed functions; procedures not modelled; mailbox network failures only as observed "
+                   "failure flags; the ghost writer tags are the model's reading of 'written or sent by'. A Recorder that keeps the Event without copying sees its Elements "
+                   "cleared in place afterwards: reported in notes/C18.md, not judged a violation of the statement."),
 }
